@@ -79,7 +79,7 @@ def report_from_text(text, paired, minimal):
 def _generate(rng, tier):
     return gen.gen_case(rng, {
         "p_filters": 0.85, "p_redirect": 0.6, "p_untrimmed_opts": 0.6, "p_demux": 0.3, "p_combinatorial": 0.5,
-        "p_minimal_report": 0.25, "p_info": 0.1, "p_rename": 0.1, "p_modifiers": 0.5, "p_long_read": 0.02, "p_devnull": 0.08, "p_qbase64": 0.04, "p_giant": 0.002,
+        "p_minimal_report": 0.25, "p_info": 0.1, "p_rename": 0.1, "p_modifiers": 0.5, "p_long_read": 0.02, "p_devnull": 0.08, "p_qbase64": 0.04, "p_giant": 0.002, "p_bam": 0.05,
     })
 
 
